@@ -166,8 +166,15 @@ def check_dec_a(rep):
 
 
 def replay_dec_a(vals, kind):
-    d = concrete_dec_a([vals.get('r%d' % i, 0) for i in range(30)], vals)
-    return {'case': {'regs': [vals.get('r%d' % i, 0) for i in range(30)]}, 'diffs': d}
+    regs = [vals.get('r%d' % i, 0) for i in range(30)]
+    for which in ('jr', 'jp'):
+        for r_ in (regs[Z.R], regs[Z.R] | 0x80, regs[Z.R] & 0x7F):
+            rr = list(regs)
+            rr[Z.R] = r_
+            d = concrete_dec_a(rr, vals, which)
+            if d:
+                return {'case': {'regs': rr, 'loop': which}, 'diffs': d}
+    return {'case': {'regs': regs}, 'diffs': []}
 
 
 def concrete_dec_a(regs, vals=None, which='jr'):
